@@ -33,13 +33,14 @@ cp "$DEMO" "$DEMOF"
 if go test -vet=off -count=1 ./$DDIR/ > "$W/demo_mut.log" 2>&1; then res "INVALID demo-passes-with-patch"; cleanup; exit 3; fi
 rm -f "$DEMOF"
 # harness against the mutated copy
-sed "s#=> /repo#=> $W/repo#" /verif/harness/go.mod > "$W/harness.mod"
+HD="${HARNESS_DIR:-/verif/harness}"
+sed "s#=> /repo#=> $W/repo#" "$HD/go.mod" > "$W/harness.mod"
 cp /repo/go.sum "$W/harness.sum"
-cd /verif/harness
+cd "$HD"
 if ! go build -tags verif -modfile="$W/harness.mod" -o "$W/chainmon" . > "$W/hbuild.log" 2>&1; then res "HARNESS-BUILD-FAILED"; cleanup; exit 4; fi
 mkdir -p "$W/out"; cp /verif/known_findings.json "$W/out/" 2>/dev/null
 SECONDS=0
-"$W/chainmon" run -prop "$PROP" -tier "$TIER" -seed "${VERIF_SEED:-1}" -out "$W/out" > "$W/check.log" 2>&1
+"$W/chainmon" run -prop "$PROP" -tier "$TIER" -seed "${VERIF_SEED:-1}" ${EXTRA_ARGS:-} -out "$W/out" > "$W/check.log" 2>&1
 rc=$?
 nv=$(grep -c '^VIOLATION' "$W/check.log")
 sigs=$(grep 'signature=' "$W/check.log" | sed 's/.*signature=\([^ ]*\).*/\1/' | head -4 | tr '\n' ' ')
